@@ -78,6 +78,9 @@ func execBufConc(t *trace, script []string) {
 				if e.Obj == any(b) {
 					log.Add("clean %d", e.N)
 				}
+			case "buf.diff":
+				// inside Buffer.Diff's critical section (consumer mutex + buffer read lock)
+				log.Add("diff %d d=%d", idxOf(e.Obj), e.N)
 			case "cons.rollback":
 				log.Add("rollback %d", idxOf(e.Obj))
 			case "cons.commit":
@@ -169,6 +172,17 @@ func execBufConc(t *trace, script []string) {
 				}
 			}()
 		}
+		// inspector: Diff on consumers that other goroutines are using (it waits for a Get in progress; what it reports must be
+		// the state at ONE instant)
+		inspR := root.Fork()
+		wg.Add(1)
+		go func() {
+			defer wg.Done()
+			for k := 0; k < ops; k++ {
+				b.Diff(cons[inspR.Intn(len(cons))])
+				perturb(inspR)
+			}
+		}()
 		// churn: consumers created and closed mid-run
 		churnR := root.Fork()
 		wg.Add(1)
